@@ -1412,6 +1412,8 @@ class Interp:
     def make_super(self, cls, first):
         if isinstance(first, SObj):
             return SSuper(cls, first)
+        if getattr(type(first), "__pyvc_symbolic__", False):
+            raise Unsupported("super() on a ghost object of class %s" % type(first).__name__)
         if isinstance(first, type) or not is_symscalar(first):
             return super(cls, first)
         raise Unsupported("super() on symbolic scalar")
@@ -2055,6 +2057,10 @@ class Interp:
                 return setattr(obj, name, v)
             except Exception as e:
                 raise PyRaise(type(e), e.args)
+        if self.summaries.get("<option>ignore_child_attribute_stores") and hasattr(obj, "tag") and hasattr(obj, "getparent"):
+            # a real (freshly created) child element receiving an attribute value: outside a child-sequence contract
+            self.path.assumed.add("assigning an attribute of a child element does not change the parent's child sequence")
+            return None
         raise Unsupported("attribute store on %r" % (obj,))
 
     # -- subscripts --
